@@ -374,16 +374,16 @@ namespace
     {
         std::vector<Params> ps;
         int idx = 0;
-        std::vector<double> ns = { 1.0, 2.0, 0.5 };
+        // n = 4 with the largest time step needs more than 20 Newton iterations from the
+        // initial drop (each step only shrinks it by (n - 1) / n while the power term dominates)
+        std::vector<double> ns = { 1.0, 2.0, 0.5, 4.0 };
         if (th)
         {
             ns.push_back(1.5);
             ns.push_back(0.8);
-            ns.push_back(4.0);
+            ns.push_back(6.0);
         }
-        std::vector<double> dts = { 0.0, 1.0, 1e6 };
-        if (th)
-            dts.push_back(1e12);
+        std::vector<double> dts = { 0.0, 1.0, 1e6, 1e12 };
         std::vector<double> ks = { 1e-3, 1.0 };
         std::vector<double> ms = { 0.5, 1.0 };
         if (th)
